@@ -74,7 +74,7 @@ def check(run):
     _accessors(run, prog, oa, getters)
     _rate_classes(run, prog)
     from ..cachekey import check_caches
-    check_caches(run, [m for k, m in prog.modules.items() if k.startswith('cherab.openadas') and not k.endswith('#pxd')], 'C07-K')
+    check_caches(run, [m for k, m in prog.modules.items() if k.startswith('cherab.openadas') and not k.endswith('#pxd')], 'C07-K', prog=prog)
 
 
 def _raise_set(getter, mi):
